@@ -300,6 +300,10 @@ class Lexer:
             self.path_stack[-1].path.append(self.source[self.start : self.pos])
             self.start = self.pos
 
+        # Nested paths (`a[b.c]`) are pushed on to the stack as we find them. We must
+        # be back at this depth when the path ends.
+        depth = len(self.path_stack)
+
         while True:
             c = self.next()
 
@@ -309,6 +313,8 @@ class Lexer:
             if c == ".":
                 if self.peek() == ".":  # probably a range expression delimiter
                     self.backup()
+                    if len(self.path_stack) != depth:
+                        self.error("unbalanced brackets")
                     if self.path_stack[-1].stop < 0:
                         # A single word path, like `x` in `(x..3)`.
                         self.path_stack[-1].stop = self.pos
@@ -402,6 +408,10 @@ class Lexer:
                     self.error("expected a string, index or property name")
             else:
                 self.backup()
+                if len(self.path_stack) != depth:
+                    # Something like `a[b }}`. Without this we'd silently return
+                    # the inner path and leave the outer one on the stack.
+                    self.error("unbalanced brackets")
                 return
 
     def accept_string(self, *, quote: str) -> None:
